@@ -138,6 +138,7 @@ func cmdGen(args []string) {
 	n := fs.Int("n", 1000, "number of vectors")
 	tables := fs.String("tables", "", "comma separated tables (default all)")
 	ops := fs.String("ops", "", "comma separated hex opcodes (default all)")
+	pend := fs.Int("pend", 0, "slots: percentage of vectors that carry a REFUSED maskable request (IFF1 clear, request pending with 0..3 data bytes)")
 	fs.Parse(args[1:])
 	r := &rng{s: *seed*0x2545F4914F6CDD1D + 0x1234567}
 	out := bufio.NewWriterSize(os.Stdout, 1<<20)
@@ -163,6 +164,19 @@ func cmdGen(args []string) {
 			for _, op := range opl {
 				for k := 0; k < *per; k++ {
 					v := r.slotVec(fmt.Sprintf("%s-%02x-%d", t, op, k), t, uint8(op))
+					if *pend > 0 && r.chance(*pend) {
+						// the instruction runs with a request waiting that the CPU must refuse (and keep)
+						v.ID = fmt.Sprintf("%s-%02x-p%d", t, op, k)
+						v.IFF1 = false
+						in := &Intr{Type: 1}
+						for j := r.n(4); j > 0; j-- {
+							in.Data = append(in.Data, r.u8())
+						}
+						v.Intr = in
+						if r.chance(50) {
+							v.W[1] = uint16(2 + r.n(4)) // BC small and >= 2: a block instruction repeats
+						}
+					}
 					fmt.Fprintln(out, v.String())
 				}
 			}
